@@ -141,5 +141,4 @@ theorem chain_of_closed (c : List Int) (hasc : c.Pairwise (· < ·)) (hpos : ∀
           · rw [← e] at hjb; omega
           · have := at'_lt_of_pairwise c hasc k j l hj; omega
 
-#print axioms chain_of_closed
 end P
